@@ -1,3 +1,94 @@
 import Driver.Common
--- stub driver (not yet implemented)
-def main : IO Unit := Driver.run () (fun s _ => (s, "bad-op"))
+import SSV.Model.Persist
+open SSV SSV.Persist
+
+/-
+Line protocol of the C20 driver.
+
+  prog
+      -> the decoded programs (`save=<n stmts> dequeue=<n nodes>`), or `gen-undecodable`
+  save <kill|efbig> <k> <oldhex> <newhex>
+      one run of the regenerated save program on a store file holding <old>, writing <new>, with the
+      file-size limit k (RLIMIT_FSIZE): `kill` = the process dies at the write that crosses the limit,
+      `efbig` = that write returns an error after k bytes and the procedure runs on.
+      -> target=<hex|-|absent> tmps=<hex;hex|none> err=<0|1> verdict=<old|new|empty|absent|other>
+  stop <tokens>
+      tokens: A (API change, acknowledged)  W (synctest.Wait)  T (sleep one cool-down)  C (cancel)  S (Stop)
+      -> disks=<v,v,..> acked=<n> lost=<0|1>   (every store version the file can hold when Stop returns)
+-/
+
+def hexOpt : Option Bytes → String
+  | none => "absent"
+  | some b => toHexField b
+
+def insertSorted (x : String) : List String → List String
+  | [] => [x]
+  | y :: ys => if x ≤ y then x :: y :: ys else y :: insertSorted x ys
+
+def sortStrings (xs : List String) : List String := xs.foldr insertSorted []
+
+def tmpContents (fs : FS) : List String :=
+  sortStrings (fs.tmps.map (fun p => match fs.inodes[p.2]? with | some i => toHexField i.cur | none => "dangling"))
+
+def verdict (c : Option Bytes) (old new : Bytes) : String :=
+  match c with
+  | none => "absent"
+  | some d => if d == old then "old" else if d == new then "new" else if d.isEmpty then "empty" else "other"
+
+def doSave (mode : String) (k : Nat) (old new : Bytes) : String :=
+  match saveProg? with
+  | none => "gen-undecodable"
+  | some prog =>
+    match writeIndex prog 0 with
+    | none => "no-write-in-program"
+    | some wi =>
+      let cut := k < new.length
+      let fault : Fault := if cut then some (wi, k) else none
+      let stop : Option Nat := if cut && mode == "kill" then some wi else none
+      let r := finalRun new fault stop prog 0 (startRun (initFS old))
+      let c := afterKill r.fs
+      let tm := tmpContents r.fs
+      let tms := if tm.isEmpty then "none" else String.intercalate ";" tm
+      s!"target={hexOpt c} tmps={tms} err={if r.err then 1 else 0} verdict={verdict c old new}"
+
+def natList (xs : List Nat) : String := String.intercalate "," (xs.map toString)
+
+def insertNat (x : Nat) : List Nat → List Nat
+  | [] => [x]
+  | y :: ys => if x < y then x :: y :: ys else if x = y then y :: ys else y :: insertNat x ys
+
+def doStop (toks : List String) : String :=
+  match dequeueProg? with
+  | none => "gen-undecodable"
+  | some prog =>
+    let fuel := 64
+    let start := closure prog false fuel [dinit]
+    let fin := toks.foldl (fun (ss : List DState) (t : String) =>
+      match t with
+      | "A" =>
+        let s1 := closure prog false fuel (insertNew [] (ss.map apiMutate))
+        closure prog false fuel (insertNew [] (s1.map apiEnqueue))
+      | "W" => blocked prog false (closure prog false fuel ss)
+      | "T" => closure prog true fuel (blocked prog false (closure prog false fuel ss))
+      | "C" => closure prog false fuel (insertNew [] (ss.map (fun s => { s with cancelled := true })))
+      | "S" => (closure prog true fuel ss).filter (·.exited)
+      | _ => ss) start
+    let disks := fin.foldl (fun acc s => insertNat s.disk acc) []
+    let acked := fin.foldl (fun a s => max a s.acked) 0
+    let lost := fin.any (fun s => s.acked > s.disk)
+    s!"disks={natList disks} acked={acked} lost={if lost then 1 else 0}"
+
+def stepC20 (u : Unit) (line : String) : Unit × String :=
+  match fields line with
+  | ["prog"] =>
+    match saveProg?, dequeueProg? with
+    | some p, some d => (u, s!"save={p.length} dequeue={d.length}")
+    | _, _ => (u, "gen-undecodable")
+  | ["save", mode, k, old, new] =>
+    match k.toNat?, ofHex? old, ofHex? new with
+    | some k, some o, some n => (u, doSave mode k o n)
+    | _, _, _ => (u, "bad-op")
+  | "stop" :: toks => (u, doStop toks)
+  | _ => (u, "bad-op")
+
+def main : IO Unit := Driver.run () stepC20
